@@ -260,7 +260,19 @@ class Hist(Scenario):
             self.g("commit", "-q", "--allow-empty", "-m", "partial")
         else:
             # finding D82 (see op_destructive / mv): commit exactly the chosen paths, not whatever else happens to be staged
+            others = [f for f in changed if f not in chosen]
+            left_staged = []
+            if others and self.rng.random() < 0.5:
+                # other files are staged as a whole (index == work tree, so no unstaged hunk inside them) and left out by the
+                # by-path commit: after it the index still differs from the new commit
+                left_staged = self.rng.sample(others, self.rng.randrange(1, len(others) + 1))
+                for f in left_staged:
+                    self.g("add", "--", f)
             self.g("commit", "-q", "--allow-empty", "-m", "partial", "--", *chosen)
+            if left_staged:
+                # (unstaged again right away: staged content that later diverges from the work tree is the D82 situation)
+                self.g("reset", "-q", "--", *left_staged)
+                self.ops.append("commit:by-path-with-others-staged")
         self.ops.append("commit:files")
 
     def stage_hunk_subset(self, f):
